@@ -94,6 +94,12 @@ CLAIMED = {
             "Right level: the property is about the container's control flow over value/key kinds, values only flow through.", "4/C15",
             "symbolic execution of the real container code on z3-term values over enumerated write histories; equalities decided by the normal form of the symbolic scalars / z3; float cross-check on the unshimmed scipy code",
             "Histories bounded to length 3 (quick) / 4 (thorough) on a 3x3 container with concrete index sets; array('d') and scipy conversions stubbed by their documented law."),
+    "C22": ("model_checking", "The user function is an arbitrary map (fresh symbols per call), linear solves return arbitrary vectors; every path of the real "
+            "fsolve / fixed-point loops within the iteration bound is explored and on each path the solver decides: success iff the scaled residual "
+            "criterion holds at the returned point (residual evaluated there), warning iff not converged, fixed-point helpers return only iterates "
+            "meeting atol/rtol and raise only otherwise; approx_fprime exact on quadratics (3-point) / first-order error eps*A_ii (2-point).", "4/C22",
+            "path-exploring symbolic execution of the real helper code with scripted environment + z3 nlsat per path obligation; float replay of models",
+            "Bounds: dimension <= 2, iteration limits <= 2 (quick) / 3; 'cs' method and ill-conditioning outside."),
 }
 
 NOT_APPLICABLE = {
